@@ -216,7 +216,7 @@ def run(chk, replay_case=None):
     ok_cases, out_cases = vlib.coq_make(["Tcc/TccCases.vo"])
     if not ok_cases:
         raise vlib.Broken("Tcc/TccCases.v does not compile:\n" + out_cases[-1500:])
-    n = 250 if chk.tier == "quick" else 20000
+    n = 250 if chk.tier == "quick" else 40000
     data, secs = vlib.run_harness("tcc", chk.tmp("tcc.json"), timeout=3000, seed=chk.seed, n=n, repo=vlib.REPO)
     if data.get("setup"):
         raise vlib.TieBroken("tcc services could not be registered: " + data["setup"])
